@@ -10,7 +10,7 @@ pub fn family() -> Family {
 fn corpus() -> Vec<&'static str> {
     vec!["a", "  foo", "(a b)", "(a\n b)", "'x", "#(1 2)", "(a . b)", "(a (b c) . d)", "#u8(1 2)", "`(a ,b ,@c)", ",@x", "'(a 'b)", "\"str\\n\" #\\x", "(1.5 -2 #t)",
          "\u{3bb} (\u{3bb}x \"\u{3bb}\" y)", "\"\u{e9}\" z", "(a . 'b)", "[a b]", "#(a #(b) (c))", "(a ; c\n b)\n(c\n\n d)", "(.a)", "(a . (b c))", "((a) (b))", "  ( a )  b", "(,@a)", "'#(1)", "''a", "(a\r b)\r\n(c\r d)", "a\r\nb", "(doc \"first\nsecond\" tail)", "\"a\n\nb\" x\n(y \"\n\")", "(a\n,\nb)", "sym\n12\n:k\n", "\n\n  (a b)", "  \n (x\n y)  \n", "\t\"s\"", " ; c\n  (a . b) ", "\r\n\r\n  #(1\r\n 2)", "\n#\\a", "   'q   ",
-         "(a .\u{3bb}x b)", "(.\u{65e5}\u{672c} 1)", "(\"s\".\u{e9}\u{e9})", "(.foo .. ...)", "( )", "(\n)", "( ; c\n )", "[ ]", "(a ( ) b)", "#( )", "#u8( )", "(\u{3bb} .\u{3bb})", "(a . \u{3bb})", "'\u{3bb}", "(\"\u{3bb}\" . \"\u{1f600}\")"]
+         "(a .\u{3bb}x b)", "(.\u{65e5}\u{672c} 1)", "(\"s\".\u{e9}\u{e9})", "(.foo .. ...)", "( )", "(\n)", "( ; c\n )", "[ ]", "(a ( ) b)", "#( )", "#u8( )", "(\u{3bb} .\u{3bb})", "(a . \u{3bb})", "'\u{3bb}", "(\"\u{3bb}\" . \"\u{1f600}\")", "(foo\"bar\" baz)", "a\"b\"c", "(a\tb\tc)", "foo\tbar", "(x:\"s\")", "' foo", "`  ; c\n (a)", ",@ x", "'a 'b", "(1 'a . 'b)"]
 }
 fn optsets() -> Vec<Options> { vec![Options::default(), Options::elisp()] }
 
@@ -62,6 +62,14 @@ fn check_ref(input: &[u8], o: &Options, r: Ref<'_>, parent: (usize, usize), head
             if x < last { return Err(format!("element {} of {} starts at {} before its predecessor ends at {}", i, r.value(), x, last)); }
             last = y;
         }
+    }
+    if let Some(mut it) = r.list_iter() {
+        // a finished list iterator stays finished: elements, [None, tail] for a dotted list, then None for ever and is_empty()
+        let proper = r.value().is_list();
+        let mut guard = 0;
+        while it.next().is_some() { guard += 1; if guard > 10_000 { break; } }
+        if !proper { if it.next().is_none() { return Err(format!("list_iter over the dotted list {} does not yield its tail after the separating None", r.value())); } if it.next().is_some() { return Err(format!("list_iter over {} yields an element after the tail", r.value())); } }
+        if it.next().is_some() || !it.is_empty() { return Err(format!("list_iter over {} is not finished after its end (is_empty() = {})", r.value(), it.is_empty())); }
     }
     if let Some(items) = r.vector_iter() {
         for (i, it) in items.enumerate() {
